@@ -41,6 +41,7 @@ def _is_output_call(node):
 class Interp:
     def __init__(self, repo=None, registry=None, opts=None):
         from . import lib as _lib
+        from . import models_time  # noqa: registers the datetime models
         self.repo = repo or Repo()
         self.registry = registry       # contracts by qualified name
         self.opts = opts or {}
